@@ -125,6 +125,19 @@ def text_corpus(ctx, n):
            'SELECT k FROM #nope', 'SELECT * FROM #g WHERE sum(v) > 1', 'SELECT sum(sum(v)) FROM #g', 'SELECT k + sum(v) FROM #g',
            'SELECT m, count(*) FROM #g GROUP BY m', 'SELECT count(*) FROM #g GROUP BY l', 'SELECT m, count(*) FROM #g', 'SELECT DISTINCT m FROM #g',
            'SELECT DISTINCT k, l FROM #g', "SELECT m['x'], l FROM #g", "SELECT k['x'] FROM #g", 'SELECT m.x FROM #g', 'SELECT k IN l, k IN m FROM #g']
+    # a SELECT where no subquery belongs - under every node kind, and under those on the right-hand side of IN
+    sq, ss = '(SELECT k FROM #g)', '(SELECT s FROM #g)'
+    wrapped = ['-%s' % sq, '%s + 1' % sq, '1 - %s' % sq, 'k * %s' % sq, '%s > 1' % sq, 'k = %s' % sq, '%s IS NULL' % sq, 'NOT %s' % sq, '%s AND TRUE' % sq,
+               'k > 1 OR %s' % sq, 'k BETWEEN %s AND 2' % sq, '%s BETWEEN 1 AND 2' % sq, 'k BETWEEN 1 AND %s' % sq, 'coalesce(%s, 1)' % sq,
+               'upper(%s)' % ss, 's ~ %s' % ss, '%s ~ "a"' % ss, 'length(%s)' % ss, 'count(%s)' % sq, 'sum(%s)' % sq, '(%s, 2)' % sq, '%s IN (1, 2)' % sq]
+    out += ['SELECT %s FROM #g' % w for w in wrapped] + ['SELECT k FROM #g WHERE %s' % w for w in wrapped]
+    out += ['SELECT count(*) FROM #g GROUP BY %s' % w for w in wrapped[:6]] + ['SELECT k FROM #g ORDER BY %s' % w for w in wrapped[:6]]
+    out += ['SELECT k, count(*) FROM #g GROUP BY k HAVING %s' % w for w in wrapped[:8]]
+    out += ['SELECT k FROM #g WHERE k %s %s' % (op, w) for op in ('IN', 'NOT IN') for w in
+            ('-%s' % sq, '(k + %s)' % sq, 'abs(%s)' % sq, '(%s)' % sq, '(%s, 1)' % sq, 'coalesce(%s, 1)' % sq, '%s IN %s' % (sq, sq))]
+    out += ['SELECT s FROM #g WHERE s IN lower(%s)' % ss, 'SELECT s FROM #g WHERE s IN upper((%s))' % ss]
+    out += ['@ledger ' + t for t in ('BALANCES WHERE number IN -(SELECT number)', 'JOURNAL "Cash" FROM year IN -(SELECT year(date))',
+                                     'SELECT account WHERE number IN (number + (SELECT number))', 'PRINT FROM year IN -(SELECT year(date))')]
     out += ['@ledger ' + t for t in LEDGER_TEXTS]
     while len(out) < n:
         fam = rng.choice(['plain', 'order', 'group', 'pivot'])
